@@ -92,6 +92,8 @@ let show_verdict = function
   | Fails c -> (match int_of_n c with
       | 1 -> "fails:C17-noconv-unsorted-map"
       | 2 -> "fails:C17-plutus-map-empty-values"
+      | 3 -> "fails:C17-plutus-script-language-lost"
+      | 4 -> "fails:C17-metadatum-int-below-i64-min"
       | _ -> "fails:-")
 
 let set (l : string list) = toks := Array.of_list l; pos := 0
@@ -177,9 +179,12 @@ let handle (case : string list) (impl : string list) : string * string =
   | "ty" ->
     (* observation stream: no model of the serde derive expansion; the judge reads the implementation's flags *)
     (match impl with
-     | "ok" :: fl -> ("skip typed-observation", show_verdict (judge_ty (flag "eq" fl) (flag "bytes" fl) (flag "norm" fl) (flag "fix" fl)))
      | "skip" :: _ -> ("skip typed-observation", "na")
-     | _ -> ("skip typed-observation", "fails:-"))
+     | st :: fl ->
+       let first = (match st with "ok" -> 0 | "err-tojson" -> 1 | _ -> 2) in
+       ("skip typed-observation",
+        show_verdict (judge_ty (n_of_int first) (flag "eq" fl) (flag "bytes" fl) (flag "norm" fl) (flag "fix" fl) (flag "lang" fl) (flag "negint" fl)))
+     | [] -> ("skip typed-observation", "fails:-"))
   | _ -> ("driver-badcase", "na")
 
 let gen_mode seed tier out =
